@@ -713,6 +713,25 @@ class MatchKeySignature(MatchParameter):
     def _parse_key_signature(cls, kstr: str) -> MatchKeySignature:
         # import pdb
         # pdb.set_trace()
+        # Version 1.0.0 writes plain key names ("Ab", "F#m", "E/C#m"). They have to be
+        # recognized before trying the pattern of the older formats ("Ab Maj", "F# min"),
+        # which would otherwise read the flat sign or the "m" as the mode.
+        v1_names = [name.strip() for name in kstr.split("/")]
+        valid_v1_names = list(MAJOR_KEYS) + [f"{name}m" for name in MINOR_KEYS]
+        if len(v1_names) in (1, 2) and all(name in valid_v1_names for name in v1_names):
+            fifths1, mode1 = key_name_to_fifths_mode(v1_names[0])
+            fifths2, mode2 = None, None
+            if len(v1_names) == 2:
+                fifths2, mode2 = key_name_to_fifths_mode(v1_names[1])
+            return cls(
+                fifths=fifths1,
+                mode=mode1,
+                fifths_alt=fifths2,
+                mode_alt=mode2,
+                is_list=False,
+                fmt="v1.0.0",
+            )
+
         ksinfo = key_signature_pattern.search(kstr)
 
         if ksinfo is None:
